@@ -21,9 +21,11 @@ func init() {
 			"(4) checksums — every success exit of block.NewReader and footer.Decode is dominated by the checksum (and magic) comparison; FetchBlock goes through block.NewReader; " +
 			"(5) bloom filters — a block's filter is keyed by that block's own offset (the next filter is created after dataOffset advanced; the index entry records the offset before), a key is added to the filter before the block can be flushed, the reader matches filters by the index entry's offset, Add and Contains use the same hash sequence and setBit/testBit the same bit addressing, the filter file header agrees between SaveToFile and LoadBloomFilter; " +
 			"(6) input must be strictly ascending; the index entry's first key is the block's first entry and is recorded only after the block was written completely; (7) no arithmetic on 8/16-bit operands in the codecs (lengths are widened before adding); " +
-			"(8) an empty value is not a tombstone; the sstable iterator does not re-lock its own mutex.",
-		NotDecided: "DECLARED UNDECIDED: that forward iteration yields every entry exactly once and that Seek lands on the first key >= target. Both are value-level properties of cursor arithmetic (decodeCurrent does not advance the cursor, so the first entry is delivered twice; the restart and index binary searches pick the first point >= target instead of the last point <= target — both confirmed on the pinned tree). No rule here decides them; the checker's silence on them is not a verdict. Also not decided: point-lookup completeness for all data sets, behaviour under arbitrary corruption.",
-		Rules:      []func(*Ctx, *Reporter){ruleFooterCodec, ruleIndexEntryCodec, ruleBlockEntryTrace, ruleBlockTrailer, ruleSstChecksums, ruleBloomKey, ruleBloomSiblings, ruleBuilderStrictOrder, ruleIndexFirstKey, ruleNoNarrowArithmetic, ruleEmptyNotDeleted, ruleTombstoneMarker, ruleSstReentrancy, ruleRetainedBuffersAreFresh, ruleReaderLimitsCoverFormat},
+			"(8) an empty value is not a tombstone; the sstable iterator does not re-lock its own mutex; " +
+			"(9) block.NewReader keeps the slice it is given, so every caller hands over freshly allocated bytes; the decoder's sanity limits on key lengths are not below the 16-bit format maximum; " +
+			"(10) seek landing, structural part: the restart search of block.Iterator.Seek is classified by the update table of one iteration (lower-bound / floor) and a lower-bound search must examine the interval before the restart point it found; the index stores each block's FIRST key, so the index seek must step back to the last entry <= target — BOTH VIOLATED on this tree (recorded findings, demo in findings_demos/).",
+		NotDecided: "DECLARED UNDECIDED: that forward iteration yields every entry exactly once (decodeCurrent does not advance the cursor, so a raw per-file scan delivers the first entry of a block twice; the merging iterators hide it) and the exact landing position of Seek beyond the two structural conditions of (10) (e.g. what Seek answers at the end of a block). Also not decided: point-lookup completeness for all data sets, behaviour under arbitrary corruption.",
+		Rules:      []func(*Ctx, *Reporter){ruleFooterCodec, ruleIndexEntryCodec, ruleBlockEntryTrace, ruleBlockTrailer, ruleSstChecksums, ruleBloomKey, ruleBloomSiblings, ruleBuilderStrictOrder, ruleIndexFirstKey, ruleNoNarrowArithmetic, ruleEmptyNotDeleted, ruleTombstoneMarker, ruleSstReentrancy, ruleRetainedBuffersAreFresh, ruleReaderLimitsCoverFormat, ruleBlockSeekInterval, ruleIndexSeekAgreement},
 	})
 }
 
